@@ -75,6 +75,11 @@ def pickMissing (sigs : List Sig) : List Nat → Res (List Nat)
 /-- the key the wallet holds for an address: the first entry with that address -/
 def keyFor (entries : List Entry) (a : Nat) : Option Nat := (entries.find? (·.addr = a)).map (·.sec)
 
+def keyPair (entries : List Entry) (ux : List Nat) (i : Nat) : Option (Nat × Nat) :=
+  match keyFor entries (ux.getD i 0) with
+  | some k => some (i, k)
+  | none => none
+
 def setSig (sigs : List Sig) (i : Nat) (s : Sig) : List Sig := sigs.set i s
 
 /-- sign the chosen inputs -/
@@ -103,7 +108,7 @@ def signTxn (w : W) (t : STxn) (idx : List Int) (uxAddrs : List Nat) : Res STxn 
     | .panic p => .panic p
     | .ok S =>
       -- the wallet must hold a key for every address involved
-      match S.mapM (fun i => (keyFor w.entries (uxAddrs.getD i 0)).map (fun k => (i, k))) with
+      match S.mapM (keyPair w.entries uxAddrs) with
       | none => .err (userOther "Wallet cannot sign all requested inputs")
       | some keys =>
         if S ≠ [] ∧ t.ins.length ≠ t.sigs.length then
